@@ -204,6 +204,18 @@ var specs = map[string]spec{
 		},
 		Assumptions: commonAssumptions, Plain: true, QuickStride: 1, ThoroughStride: 1, QuickDeadline: 420, ThoroughDeadline: 3000, Race: true, OrderSensitive: true,
 	},
+	"C04": {
+		LevelText: "translation validation by execution, for every program of a bounded space: the C01 expression strata, the C02 command/scoping/call grammar with every data assignment, messages and plurals without and with an identity and a reordering bundle, and autoescape modes x directive chains across two namespaces, each filtered to the subset both backends define; every program is rendered by the Go renderer, translated by the JavaScript generator, loaded with soyutils.js into the otto interpreter and called with the same JSON data and injected data; the two strings must be equal (the reference interpreter names the side that is wrong)",
+		LevelNote: "otto (the ES5 interpreter the repository's own tests use) is the JS engine; data are restricted to ASCII strings, integers within 2^53 and short dyadic floats, which both engines print identically; lists/maps are not printed, and/or/not take booleans, equality is same-type, keys() only on single-key maps (documented differences of the backends); changeNewlineToBr/insertWordBreaks are excluded under autoescape=false",
+		Technique: "differential execution of every generated program on both backends (bounded exhaustive program enumeration)",
+		Level:     "translation_validation",
+		Rule:      "a program is one template (or bundle) x data set in the common subset; programs counts dual renders; disagreements_checked counts disagreements examined against the reference model",
+		Bounds: map[string]string{
+			"quick":    "C01 strata S1,S2,S4,S5,S3 in the common subset (minimal and full parentheses); every fourth body of the C02 grammar x up to 18 data sets; 7 message bodies x 3 bundles x 2 modes; 4x3 autoescape modes x 12 directive chains x 8 values through print, call and let",
+			"thorough": "every body of the C02 grammar, three-operator nestings",
+		},
+		Assumptions: commonAssumptions, Plain: true, QuickStride: 8, ThoroughStride: 8, QuickDeadline: 500, ThoroughDeadline: 3000,
+	},
 	"C05": {
 		LevelText: "bounded exhaustive exploration of the real parser: every input of the stated small scopes is parsed under a controlled scheduler with a deterministic linear fuel bound (no wall clock), and small inputs under every parser/scanner interleaving up to 2 preemptions; termination, no panic, no deadlock and tree-xor-error are checked on every execution and every case is replayed on the uninstrumented build",
 		LevelNote: "assumes the bounded scopes are representative (small-scope hypothesis) and that the overlay instrumentation preserves behaviour (cross-checked case by case against the plain build)",
